@@ -102,8 +102,14 @@ func (d *Driver) judge() {
 	if p.judges("C03") {
 		d.judgeC03()
 	}
+	if p.judges("C04") {
+		d.judgeC04()
+	}
 	if p.judges("C05") {
 		d.judgeC05()
+	}
+	if p.judges("C13") {
+		d.judgeC13()
 	}
 	if p.judges("C07") {
 		d.judgeC07()
@@ -113,6 +119,9 @@ func (d *Driver) judge() {
 	}
 	if p.judges("C09") {
 		d.judgeC09()
+	}
+	if p.judges("C11") {
+		d.judgeC11()
 	}
 	if p.judges("C12") {
 		d.judgeC12()
